@@ -420,7 +420,7 @@ impl Ty {
 }
 
 #[derive(Clone)]
-struct Var {
+pub struct Var {
     name: String,
     ty: Ty,
     rec_arg: Option<String>, // a recursive function: may only be applied to `<rec_arg> - 1`
